@@ -17,6 +17,23 @@ pub fn replay(kind: &str, lines: &[Value], seed: u64) -> ReplayReport {
 
 /// Returns the number of non-trivial cases the driver produced (its own rule).
 pub fn drive(kind: &str, seed: u64, n: usize, extra: &str, sink: &mut Sink) -> usize {
+    // History stratum "cold start": the drivers of the pure numeric functions run as several shards, each on a FRESH
+    // thread with its own seed, so that whatever the library keeps per thread is warmed up in several different orders
+    // instead of once.  (Shard 0 keeps the given seed.)
+    const SHARDS: usize = 6;
+    if matches!(kind, "eval" | "deriv" | "integ" | "logint" | "quartic") && n >= 8 * SHARDS {
+        let mut total = 0;
+        for i in 0..SHARDS {
+            let share = n / SHARDS + if i < n % SHARDS { 1 } else { 0 };
+            let sd = if i == 0 { seed } else { seed.wrapping_mul(1_000_003).wrapping_add(i as u64) };
+            total += std::thread::scope(|sc| sc.spawn(|| drive_one(kind, sd, share, extra, &mut *sink)).join().expect("driver shard"));
+        }
+        return total;
+    }
+    drive_one(kind, seed, n, extra, sink)
+}
+
+fn drive_one(kind: &str, seed: u64, n: usize, extra: &str, sink: &mut Sink) -> usize {
     match kind {
         "eval" => drive_eval(seed, n, sink),
         "ops" => drive_ops(seed, n, sink),
